@@ -32,9 +32,9 @@ const (
 
 // Outcome is what a fake backend does with one attempt of a tokenised request.
 type Outcome struct {
-	Kind OutcomeKind
-	Err  message.Error // for OutError
-	Name string        // short label used in traces and oracles
+	Kind    OutcomeKind
+	Err     message.Error // for OutError
+	Name    string        // short label used in traces and oracles
 	Hostile int
 }
 
@@ -42,7 +42,9 @@ func (o Outcome) String() string { return o.Name }
 
 var OK = Outcome{Kind: OutOK, Name: "ok"}
 
-func ErrOutcome(name string, e message.Error) Outcome { return Outcome{Kind: OutError, Err: e, Name: name} }
+func ErrOutcome(name string, e message.Error) Outcome {
+	return Outcome{Kind: OutError, Err: e, Name: name}
+}
 
 // Attempt is one arrival of a tokenised request at a backend.
 type Attempt struct {
@@ -71,31 +73,31 @@ type Attempt struct {
 // ---------------------------------------------------------------- nodes
 
 type Node struct {
-	w          *World
-	Name       string
-	IP         net.IP
-	Addr       string // ip:9042
-	DC         string
-	HostID     primitive.UUID
-	Up         bool // accepts connections
-	Blackhole  bool // dials hang, traffic is swallowed
-	Stalled    bool // receives requests but never answers (not even heartbeats)
+	w                  *World
+	Name               string
+	IP                 net.IP
+	Addr               string // ip:9042
+	DC                 string
+	HostID             primitive.UUID
+	Up                 bool // accepts connections
+	Blackhole          bool // dials hang, traffic is swallowed
+	Stalled            bool // receives requests but never answers (not even heartbeats)
 	FailControlQueries bool // answers system.local / system.peers with an error (a contact point that cannot serve)
-	InCluster  bool // listed in system tables of the other nodes
-	MaxVersion primitive.ProtocolVersion
-	DSE        bool
-	Prepared   map[string]string // hex id -> query
-	Conns      []*BackendConn
-	Keyspaces  map[string]bool // keyspaces that exist (lower-cased, unquoted form)
-	Restarts   int
+	InCluster          bool // listed in system tables of the other nodes
+	MaxVersion         primitive.ProtocolVersion
+	DSE                bool
+	Prepared           map[string]string // hex id -> query
+	Conns              []*BackendConn
+	Keyspaces          map[string]bool // keyspaces that exist (lower-cased, unquoted form)
+	Restarts           int
 	// RespCompress: 0 follow the request's connection setting for every frame, 1 never, 2 per-frame choice
-	RespCompress int
-	AuthUser     string // if set, PasswordAuthenticator with this user/password
-	AuthPass     string
-	ConnsSeen    int
-	DialTimes    []time.Duration
-	Joined       bool // added to the cluster after the proxy started
-	EvilHeartbeat int // number of heartbeats to answer maliciously
+	RespCompress  int
+	AuthUser      string // if set, PasswordAuthenticator with this user/password
+	AuthPass      string
+	ConnsSeen     int
+	DialTimes     []time.Duration
+	Joined        bool // added to the cluster after the proxy started
+	EvilHeartbeat int  // number of heartbeats to answer maliciously
 	NeverHostile  bool // this node answers correctly whatever the script says (C17's healthy node)
 }
 
@@ -115,7 +117,7 @@ type BackendConn struct {
 	Frames      int
 	authPending bool
 	stalled     [][]byte
-	Hung        bool // answers nothing any more (OutHang)
+	Hung        bool         // answers nothing any more (OutHang)
 	Out         func([]byte) // if set, replies are written here instead of to Link
 }
 
@@ -179,6 +181,12 @@ func (c *BackendConn) reply(stream int16, msg message.Message, att *Attempt, des
 	frm := frame.NewFrame(c.Version, stream, msg)
 	if w.ReplyMod != nil && att != nil {
 		w.ReplyMod(att, frm)
+	} else if att != nil && len(att.Raw) > 1 && att.Raw[1]&0x02 != 0 {
+		// as a Cassandra node does: a request that asked for tracing gets the tracing id in front
+		// of the response body (header flag 0x02)
+		id := primitive.UUID{0x7e, 0x57, 0, 0, 0, 0, 0x40, 0, 0x80, 0, 0, 0, 0, 0, byte(stream >> 8), byte(stream)}
+		frm.SetTracingId(&id)
+		w.Stat("backend.traced_response")
 	}
 	if c.Compression != "" && msg.GetOpCode() != primitive.OpCodeReady && msg.GetOpCode() != primitive.OpCodeSupported {
 		switch c.Node.RespCompress {
